@@ -409,6 +409,7 @@ pub fn legality_cells() -> Vec<(String, Vec<String>, Option<Vec<u16>>)>
 			("struct member", format!("struct T\n{{\n\tm: {t},\n}}\n")),
 			("word member", format!("word32 T\n{{\n\tm: {t},\n}}\n")),
 			("return type", format!("fn f() -> {t};\n")),
+			("return type of a function with a body", format!("fn f() -> {t}\n{{\n\tvar v: {t};\n\treturn: v\n}}\n")),
 			("extern parameter", format!("extern fn f(p: {t});\n")),
 			("extern return type", format!("extern fn f() -> {t};\n")),
 			("size-of operand", format!("const K: usize = |:{t}|;\n")),
@@ -543,13 +544,25 @@ fn documented_legality(t: &str, pos: &str) -> Option<Vec<u16>>
 			}
 			None
 		}
+		"return type of a function with a body" =>
+		{
+			if matches!(t, "S" | "[3]i32" | "[]i32" | "[3][2]i32" | "[3]S")
+			{
+				return Some(vec![350, 351, 352]);
+			}
+			if prim_nonvoid
+			{
+				return Some(vec![]);
+			}
+			None
+		}
 		"extern parameter" =>
 		{
-			if matches!(t, "u128" | "bool" | "char8" | "S" | "W")
+			if matches!(t, "u128" | "bool" | "S" | "W")
 			{
 				return Some(vec![358]);
 			}
-			if matches!(t, "i8" | "i32" | "u64" | "usize" | "&i32" | "[]i32")
+			if matches!(t, "i8" | "i32" | "u64" | "usize" | "char8" | "&i32" | "[]i32")
 			{
 				return Some(vec![]);
 			}
